@@ -37,6 +37,12 @@ func optFieldOf(e ast.Expr) (string, string, bool) {
 	if !ok {
 		return "", "", false
 	}
+	// a local that was bound to s.router / s.route (`if rte := s.route; rte != nil { rte.x = … }`)
+	if id, ok := sel.X.(*ast.Ident); ok {
+		if tgt, ok := optAlias[id.Name]; ok {
+			return tgt, sel.Sel.Name, true
+		}
+	}
 	inner, ok := sel.X.(*ast.SelectorExpr)
 	if !ok {
 		return "", "", false
@@ -46,6 +52,33 @@ func optFieldOf(e ast.Expr) (string, string, bool) {
 		return "", "", false
 	}
 	return inner.Sel.Name, sel.Sel.Name, true
+}
+
+// optAlias: the locals of the option constructor under analysis that are bound (once, by a short variable declaration) to
+// s.router or s.route
+var optAlias = map[string]string{}
+
+func optCollectAliases(r *Repo, body ast.Node) {
+	optAlias = map[string]string{}
+	ast.Inspect(body, func(n ast.Node) bool {
+		as, ok := n.(*ast.AssignStmt)
+		if !ok || as.Tok != token.DEFINE || len(as.Lhs) != len(as.Rhs) {
+			return true
+		}
+		for i, l := range as.Lhs {
+			id, ok := l.(*ast.Ident)
+			if !ok {
+				continue
+			}
+			switch r.Text(as.Rhs[i]) {
+			case "s.router":
+				optAlias[id.Name] = "router"
+			case "s.route":
+				optAlias[id.Name] = "route"
+			}
+		}
+		return true
+	})
 }
 
 func optSortedKeys(m map[string]bool) []string {
@@ -161,6 +194,7 @@ func genOptions(r *Repo) (string, error) {
 			continue
 		}
 		o := optFacts{name: fd.Name.Name, router: map[string]bool{}, route: map[string]bool{}}
+		optCollectAliases(r, fd.Body)
 		ast.Inspect(fd.Body, func(n ast.Node) bool {
 			switch x := n.(type) {
 			case *ast.AssignStmt:
@@ -246,6 +280,7 @@ func genOptions(r *Repo) (string, error) {
 				return true
 			})
 		}
+		optCollectAliases(r, fd.Body)
 		walk(fd.Body, "")
 		sort.Strings(items)
 		fmt.Fprintf(&sb, "/-- (target, field, guard, value) of every assignment in %s -/\ndef assigns_%s : List (String × String × String × String) := [%s]\n",
@@ -267,6 +302,7 @@ func genOptions(r *Repo) (string, error) {
 		})
 		var items []string
 		if lit != nil {
+			optCollectAliases(r, lit.Body)
 			for _, tgt := range []string{"route", "router"} {
 				for _, isNil := range []bool{true, false} {
 					ev := &resolverEval{r: r, target: tgt, resolverNil: isNil, value: "unchanged"}
@@ -464,6 +500,9 @@ func (ev *resolverEval) cond(e ast.Expr) int {
 				return -1
 			}
 			isNil := -1
+			if tgt, ok := optAlias[l]; ok {
+				l = "s." + tgt
+			}
 			switch l {
 			case "resolver":
 				isNil = b2i(ev.resolverNil)
@@ -548,8 +587,19 @@ func (ev *resolverEval) stmt(st ast.Stmt) {
 		ev.done = true
 	case *ast.IfStmt:
 		if x.Init != nil {
-			ev.value, ev.done = "unknown: "+strings.Join(strings.Fields(ev.r.Text(x.Init)), " "), true
-			return
+			// `if rte := s.route; …`: the binding is known to optAlias; anything else is not understood
+			okInit := false
+			if as, ok := x.Init.(*ast.AssignStmt); ok && as.Tok == token.DEFINE && len(as.Lhs) == 1 && len(as.Rhs) == 1 {
+				if id, ok := as.Lhs[0].(*ast.Ident); ok {
+					if _, ok := optAlias[id.Name]; ok {
+						okInit = true
+					}
+				}
+			}
+			if !okInit {
+				ev.value, ev.done = "unknown: "+strings.Join(strings.Fields(ev.r.Text(x.Init)), " "), true
+				return
+			}
 		}
 		switch ev.cond(x.Cond) {
 		case 1:
